@@ -601,6 +601,29 @@ func c03Wordlists(c *Ctx) {
 				okCopy = true
 			}
 		}
+		if !okCopy {
+			// the same array filled element by element in the loop over the fields: words[i] = fields[i] for every i
+			// (a range loop over the fields whose body stores, with nothing that could skip an iteration's store)
+			for _, l := range rangeLoops(cb) {
+				if !matches("call<strings.Fields>(p0)", l.Coll) {
+					continue
+				}
+				for _, blk := range ctorFn.Blocks {
+					for _, ins := range blk.Instrs {
+						st, isSt := ins.(*ssa.Store)
+						if !isSt || !l.Blocks[blk] {
+							continue
+						}
+						at, vt := cb.Of(st.Addr, st), cb.Of(st.Val, st)
+						_, a := ana.Match("iaddr(faddr<#1>(_), bin<+>(ind<+1>(-1), 1))", at)
+						_, bb := ana.Match("load(iaddr(call<strings.Fields>(p0), bin<+>(ind<+1>(-1), 1)))", vt)
+						if a && bb && blk.Dominates(l.Back[0].From) && len(l.Back) == 1 {
+							okCopy = true
+						}
+					}
+				}
+			}
+		}
 		okFields = len(ana.CallsTo(ctorFn, "strings.Fields")) == 1
 		r.Check(okMap && okCopy && okFields, "C03.wordlists.index-is-position", c.P.Pos(ctorFn.Pos()), "constructor: fields = strings.Fields(text); indexes[fields[i]] = i; words = fields in order (map=%v copy=%v)", okMap, okCopy)
 		// count guard and duplicate guard
